@@ -6,9 +6,9 @@ import (
 	"math/rand"
 )
 
-const histImports = "From Coq Require Import ZArith String List.\nFrom Sidetree Require Import Base.Hex Json.Json Sidetree.Protocol Sidetree.Applier Harness.Runner Harness.Hist.\nImport ListNotations.\nOpen Scope string_scope.\n"
+const histImports = "From Coq Require Import ZArith String List.\nFrom Sidetree Require Import Base.Hex Json.Json Sidetree.Protocol Sidetree.Applier Harness.Runner Harness.PatchCases Harness.Hist.\nImport ListNotations.\nOpen Scope string_scope.\n"
 
-func histGen(focus string, quickN, thoroughN, maxLen int) func(seed int64, tier string) []caseOut {
+func histGen(focus string, quickN, thoroughN, maxLen, byteEvery int) func(seed int64, tier string) []caseOut {
 	return func(seed int64, tier string) []caseOut {
 		n := quickN
 		if tier == "thorough" {
@@ -19,6 +19,11 @@ func histGen(focus string, quickN, thoroughN, maxLen int) func(seed int64, tier 
 		for i := 0; i < n; i++ {
 			c, cfgs := genHistory(r, focus, maxLen)
 			runHistory(c, cfgs)
+			if byteEvery > 0 && i%byteEvery == 0 {
+				for _, s := range c.Steps {
+					s.ByteLevel = true
+				}
+			}
 			// per-step configurations differ only in list fields that the *view* already
 			// accounts for; the model gets the base protocol
 			key := ""
@@ -33,8 +38,8 @@ func histGen(focus string, quickN, thoroughN, maxLen int) func(seed int64, tier 
 }
 
 func init() {
-	generators["C01"] = generator{"hcase", "judge_history", histImports, histGen("any", 120, 3000, 9)}
-	generators["C02"] = generator{"hcase", "judge_history_auth", histImports, histGen("auth", 120, 3000, 5)}
-	generators["C09"] = generator{"hcase", "judge_history_window", histImports, histGen("window", 120, 3000, 4)}
-	generators["C12"] = generator{"hcase", "judge_history_intact", histImports, histGen("any", 100, 3000, 7)}
+	generators["C01"] = generator{"hcase", "judge_history", histImports, histGen("any", 120, 3000, 9, 1)}
+	generators["C02"] = generator{"hcase", "judge_history_auth", histImports, histGen("auth", 120, 3000, 5, 1)}
+	generators["C09"] = generator{"hcase", "judge_history_window", histImports, histGen("window", 120, 3000, 4, 3)}
+	generators["C12"] = generator{"hcase", "judge_history_intact", histImports, histGen("any", 100, 3000, 7, 0)}
 }
